@@ -184,14 +184,14 @@ class Counters(EngineBase):
                     ops.append({"op": "net", "nowrap": nowrap})
                 elif r < 0.9:
                     ops.append({"op": "disk", "nowrap": nowrap})
-                if r < 0.9 and rng.random() < 0.08:
-                    # this one call cannot read the kernel table (EMFILE,
-                    # EIO, ENOMEM): it fails, the history must survive
-                    ops[-1]["fail"] = rng.choice([24, 5, 12])
                 elif r < 0.95:
                     ops.append({"op": "clear", "which": "net"})
                 else:
                     ops.append({"op": "clear", "which": "disk"})
+                if r < 0.9 and rng.random() < 0.08:
+                    # this one call cannot read the kernel table (EMFILE,
+                    # EIO, ENOMEM): it fails, the history must survive
+                    ops[-1]["fail"] = rng.choice([24, 5, 12])
         for j, op in enumerate(ops):
             op["id"] = j
         return {"prop": "C10", "world": {"net": {}, "disks": [],
